@@ -14,6 +14,11 @@ CHECKS = {
         "ref": "DESIGN.md 5/C08", "technique": _L,
         "note": "Schedules are sampled beyond the first 12 bytes (all 2^11 compositions only in thorough); outcome = success/error + format/dims/depth + ICC length and hash.",
     },
+    "C09": {
+        "text": "Hostile.tla defines the case matrix (every length/count/offset field of PNG chunks, JPEG segments incl. ICC chunk numbering, RIFF/WebP chunks, ICC profile size/tag count/tag offsets and sizes/textDescription count/mluc count, record size, string length and offset, crossed with 37-40 symbolic boundary classes per field: small constants, v+-1, 2^w-1-d, the signed boundary, 2^w-v so that sums wrap; plus wrapping pairs for fields the code adds together) and the budget contract (call returns, no escaped panic, allocation <= 4096 n + 4 MiB, time <= 1 s + 2 ms/KiB). TLC prints the matrix; the harness resolves each class against 11 seed files and runs every public entry point (loaders, autometa, ICCProfile, Description, ReadProfile) in address-space-limited single-threaded worker processes, together with seeded structure-aware mutants (set-field, truncate, duplicate, flip) and every truncation; TLC judges every observation with WithinBudget; a dead worker is itself an observation (died).",
+        "ref": "DESIGN.md 5/C09", "technique": "TLA+ case matrix + budget contract; TLC-generated cases replayed in resource-limited processes; trace validation",
+        "note": "Budget constants are deliberately loose (observed maximum on the repaired tree is 1.5% of the allocation budget); native coverage-guided fuzzing is not used (different technique).",
+    },
     "C16": {
         "text": "IccHeader.tla transcribes ICC.1:2010 table 17 as (offset, length) pairs; TLC first checks the table itself (it partitions the 128 bytes, and each of the 1024 header bits flipped in an all-zeros and an all-ones header changes exactly the exposed fields Influence() names). The real reader is then run on walking ones/zeros over all 1024 bit positions of three base headers, every field all-ones/all-zeros alone, every valid date-time component, flag combinations with noise in the other 30 bits, seeded random headers with and without the signature, and Version.String on all 65,536 version byte pairs; TLC computes Expected(hdr) from the recorded header bytes and accepts or rejects every observation.",
         "ref": "DESIGN.md 5/C16", "technique": "TLA+ transcription of the ICC header layout (role B) + TLC-checked design lemma + trace validation of real ReadProfile observations",
